@@ -204,5 +204,42 @@ P["C09"] = {
     "outside": "rule sets outside the template family; more than 3 instances; races inside stubbed dependencies; GOMAXPROCS is immaterial to the argument",
     "runs": [c09("clone", 2, QT), tierB("memo", 3, 0, T)]}
 
+TB_SETS["reuse"] = ["b_unread", "b_retract", "b_basic"]
+TB_SETS["reuseq"] = ["b_unread", "b_basic"]
+
+
+def reuseB(setname, k, tiers):
+    return {"name": "tierB-reuse-%s-k%d" % (setname, k), "pkgdir": "zztier", "harness": TIERC_H, "entry": "VerifTierBReuse", "args": [setname, k, 0], "tiers": tiers,
+            "templates": [t + ".grl" for t in TB_SETS[setname]], "replay_attempts": 150, "require_reach": ["tierB:second-call", "tierB:both-calls-fired"],
+            "bounds": "two Execute calls on ONE instance of each template of set '%s', each with a new data context and its own symbolic facts, <= %d firings per call" % (setname, k)}
+
+
+P["C08"]["runs"] += [reuseB("reuseq", 2, QT), reuseB("reuse", 2, T)]
+P["C08"]["assumptions"] = TIERA_ASSUME + TIERB_ASSUME
+P["C08"]["bounds"] += "; Tier B: two calls on one instance of real templates with independent symbolic facts: memo-free oracle throughout the second call, the first caller's facts untouched by the second call"
+P["C04"] = {
+    "design_ref": "DESIGN.md §8 C04, Appendix C", "assumptions": TIERB_ASSUME + ["values within the destination's range (assumed per case, as the property says); map entries written with values of exactly the element type"],
+    "bounds": "Tier K: model.SetNumberValue for all 12x12 (destination kind, source kind) pairs, payload fully symbolic; Tier B: 22 assignment cases (struct field, nested field behind a pointer, pointer-to-number field, slice element, existing and new map entry, top-level variable, string / bool / time field, pointer-valued path, compound forms on slice element and map entry, action order) with the expected post-value as a Go expression over the pre-facts and the frame condition on every other fact cell; compound assignments and frame conditions of all Tier B runs",
+    "outside": "JSON facts (JSONValueNode setters); values outside the destination range; map entries of another kind than the element type (the property excludes them); rule sets outside the family",
+    "runs": [{"name": "c04-setnumber", "pkgdir": "model", "harness": [["model", "harness/model"]], "entry": "VerifC04SetNumber", "tiers": QT, "require_reach": ["c04:kind-pair"],
+              "bounds": "SetNumberValue, all 144 kind pairs", "thorough": {"secondary": "z3,cvc5"}},
+             {"name": "c04-assign", "pkgdir": "zztier", "harness": TIERC_H, "entry": "VerifC04Assign", "tiers": QT, "templates": ["a_assign.grl"], "require_reach": ["c04:case"],
+              "bounds": "22 assignment cases, symbolic facts, frame condition"},
+             tierB("values", 3, 0, QT, require_reach=["tierB:execute-returned", "tierB:compound-fired-once"]), tierB("memo", 3, 0, T), reuseB("reuseq", 2, T)]}
+
+
+def c05(t, tiers):
+    return {"name": "c05-family-%d" % t, "pkgdir": "zztier", "harness": TIERC_H, "entry": "VerifC05", "args": [t], "tiers": tiers, "templates": ["c05_%d.grl" % t],
+            "require_reach": ["c05:case"], "bounds": "generated family part %d (30 expressions): evaluated through Sink = <expr> and as a rule condition on symbolic operands" % t}
+
+
+P["C05"] = {
+    "design_ref": "DESIGN.md §8 C05, Appendix C", "assumptions": TIERB_ASSUME + [
+        "reference semantics (DESIGN Appendix C) generated by tools/gen_c05.py from the PUBLISHED precedence table: trees grouped by that table, printed with only the parentheses it requires; value = 64-bit Go arithmetic with int->float promotion, / = real quotient",
+        "side conditions of the property: divisors non-zero, |operands| < 1000 (no overflow), no NaN"],
+    "bounds": "every ordered pair of the 15 binary operators 'x op1 y op2 z' over every operand-kind triple (int/bool/float) that is well-typed (321 cases), 19 notation cases (parentheses overriding / redundant, comments, literal notations decimal/hex/octal/exponent/hex-float, keyword case, uint8 operand), 24 depth-3 trees, 5 negation forms; method-call argument order and variadics (template b_args); string == and + on concrete strings; each as an assignment to a typed sink and (bool) as a rule condition; operands symbolic",
+    "outside": "the lexer is not encoded: literal notations, whitespace and comments are exercised concretely, once each, not solver-quantified; built-in string/array/map functions; string contents; expression depth > 3; operand values beyond |v| < 1000",
+    "runs": [c05(t, QT) for t in range(13)] + [tierB("values", 3, 0, QT, require_reach=["tierB:execute-returned", "tierB:args-fired"])]}
+
 json.dump({"properties": P}, open(os.path.join(V, "checks.json"), "w"), indent=1)
 print("properties:", sorted(P))
